@@ -1,6 +1,6 @@
 /-
-  `pyDen n S t ctx j`: documents on which the round trip of the generated Python is PROVED
-  (Cog/Props/C11.lean).  Decidable and executable; same recursion scheme (fuel, expression context)
+  `pyDen n S t j`: documents on which the round trip of the generated Python is PROVED
+  (Cog/Props/C11.lean).  Decidable and executable; same recursion scheme (fuel)
   as `pyFromJson`, so that the theorem is a direct induction.  Pass-through positions (scalars,
   enums, `any`, arrays/maps of scalars, unions without discriminator+mapping) admit every
   duplicate-free JSON value: the generated code does not look at them.
@@ -12,7 +12,6 @@
       the default is emitted;
     * explicit `null` for a struct/ref/enum/map/array/union-kind field whose `__init__` replaces
       `None` by a default;
-    * a map nested directly in a map of non-scalars (comprehension variable `key` shadowed);
     * unknown / non-string / catch-all discriminators; constant references; composable slots.
 
   `accepts` is the document language J⟦S,t⟧ of an IR type (closed structs, required members
@@ -36,9 +35,9 @@ def pyFieldOK (d : Ty → Json → Bool) (members : List (String × Json)) (f : 
     | some v => d f.ty v && (!v.isNull || !isRefLike f.ty || !needsDefault f.ty)
     | none => !f.required && !needsDefault f.ty
 
-def pyDen : Nat → Schemas → Ty → Option (Json × Nat) → Json → Bool
-  | 0, _, _, _, _ => false
-  | fuel + 1, ss, t, ctx, j =>
+def pyDen : Nat → Schemas → Ty → Json → Bool
+  | 0, _, _, _ => false
+  | fuel + 1, ss, t, j =>
     match t with
     | .ref pkg name _ =>
       match Schemas.locateObject ss pkg name with
@@ -50,18 +49,18 @@ def pyDen : Nat → Schemas → Ty → Option (Json × Nat) → Json → Bool
           | .obj members =>
             keysNodup members && namesNodup (fields.map (·.name)) &&
             members.all (fun kv => (fields.map (·.name)).contains kv.1) &&
-            fields.all (pyFieldOK (fun t' => pyDen fuel ss t' none) members)
+            fields.all (pyFieldOK (pyDen fuel ss) members)
           | _ => false
-        | other => pyDen fuel ss other ctx j
+        | other => pyDen fuel ss other j
     | .array e _ =>
       if e.isScalar then wfJson j
       else match j with
-        | .arr xs => xs.all (pyDen fuel ss e none)
+        | .arr xs => xs.all (pyDen fuel ss e)
         | _ => false
     | .map _ v _ =>
       if v.isScalar then wfJson j
-      else ctx.isNone && match j with
-        | .obj kvs => keysNodup kvs && kvs.all (fun kv => pyDen fuel ss v (some (j, 1)) kv.2)
+      else match j with
+        | .obj kvs => keysNodup kvs && kvs.all (fun kv => pyDen fuel ss v kv.2)
         | _ => false
     | .disj bs info _ =>
       if info.discriminator == "" || info.mapping.isEmpty then wfJson j
@@ -73,7 +72,7 @@ def pyDen : Nat → Schemas → Ty → Option (Json × Nat) → Json → Bool
             (match info.mapping.find? (fun kv => kv.1 == tag) with
              | some kv =>
                match branchPkg bs kv.2 with
-               | some p => pyDen fuel ss (.ref p kv.2 {}) none j
+               | some p => pyDen fuel ss (.ref p kv.2 {}) j
                | none => false
              | none => false)
           | _ => false
